@@ -54,8 +54,9 @@ def has_shared_objects(o):
     return dup[0]
 
 
-def perform(o, call):
-    """run one call on a real object; returns canonical result"""
+def perform(o, call, keep=None):
+    """run one call on a real object; returns canonical result (`keep`: list that receives the proposition objects the
+    call returned — a caller holds on to them)"""
     k = call["k"]
     if k in ("evaluate", "evalprops", "assume"):
         I = {a: tuple(b) for a, b in call["I"].items()}
@@ -64,9 +65,17 @@ def perform(o, call):
             b = o.evaluate(rI); return [int(b.lower), int(b.upper)]
         if k == "evalprops":
             return sorted([a, int(b.lower), int(b.upper)] for a, b in o.evaluate_propositions(rI).items())
-        return snap(o.assume(rI))
-    if k == "reduce": return snap(o.reduce())
-    if k == "negate": return snap(o.negate())
+        r = o.assume(rI)
+        if keep is not None and not is_var(r): keep.append(r)
+        return snap(r)
+    if k == "reduce":
+        r = o.reduce()
+        if keep is not None and not is_var(r): keep.append(r)
+        return snap(r)
+    if k == "negate":
+        r = o.negate()
+        if keep is not None and not is_var(r): keep.append(r)
+        return snap(r)
     if k == "errors": return sorted(str(e.value) for e in o.errors())
     if k == "to_json": return safe(lambda: jsonable(o.to_json()))
     if k == "to_b64": return safe(lambda: o.to_b64())
@@ -162,6 +171,7 @@ def do_case(ctx, inp):
         ctx.skip("variable-object"); return
     created = [snap(o) for o in live]
     leaked = [False] * len(live)
+    kept = []
     named_cid = [False] * len(live)  # the receiver has had an assume/evaluate call naming one of its sub-proposition ids
     names_compound = False
     for c in calls:
@@ -202,8 +212,27 @@ def do_case(ctx, inp):
                 live.append(copy.deepcopy(r)); created.append(snap(r)); leaked.append(leaked[i]); named_cid.append(named_cid[i])
                 asts.append(new_ast)
             continue
-        res = safe(lambda: perform(o, c))
+        got = []
+        res = safe(lambda: perform(o, c, keep=got))
         after = [snap(x) for x in live]
+        # propositions returned by EARLIER calls are still in the caller's hands: this call must not have changed them
+        for kp in kept:
+            now = safe(lambda: snap(kp["obj"]))
+            if now != kp["snap"]:
+                named = set(c.get("I", {}))
+                ch = [(x["id"], [y["lo"], y["hi"]]) for x, y in zip(subs(kp["snap"]), subs(now)) if x["id"] == y["id"] and (x["lo"], x["hi"]) != (y["lo"], y["hi"])] if isinstance(now, dict) and "k" in now else []
+                comp_ids = set(compound_ids(kp["snap"]))
+                shaped = c["k"] in ("evaluate", "evalprops", "assume") and ch and all(cid in named and cid in comp_ids and c["I"][cid] == nb for cid, nb in ch)
+                if shaped:
+                    # the known leak writes into sub-proposition objects that the receiver shares with an earlier result
+                    ctx.fail("earlier-result-changed-by-query", {"step": step, "call": c, "changed": ch}, known=F_C09A)
+                    kp["snap"] = now
+                else:
+                    ctx.fail("earlier-result-changed-by-query", {"step": step, "call": c, "result_of_step": kp["step"], "changed": ch,
+                                                                 "before": kp["snap"], "after": now}); return
+        for r_ in got:
+            kept.append({"obj": r_, "snap": snap(r_), "step": step})
+        if len(kept) > 6: del kept[0]
         if c["k"] in ("evaluate", "evalprops", "assume") and any(a in compound_ids(t) for a in c.get("I", {})):
             named_cid[i] = True
         # (1) the result is the model's pure function of the receiver's current state
